@@ -192,8 +192,10 @@ class C13(Check):
         # a long identifier / number / string / comment straddling byte 1023
         for nm, tok, tail in (("longnum", "1" * 40, ";"), ("longid", "abc_" * 10, ";"), ("longstr", '"' + "s\\\"" * 12 + '"', ";"),
                               ("longcmt", "/*" + "c*" * 16 + "*/", ";"), ("longop", "<=" * 20, ";"), ("longflt", "1.5e+10", ";")):
-            for pad in range(1023 - len(tok) - 1, 1024):
-                if quick and pad % 3:
+            for pad in range(1023 - len(tok) - 4, 1024):
+                # line lengths around the 1023-byte reader buffer always (in CRLF form the CR / LF then sit on the
+                # buffer edge), the other positions of the token thinned out in the quick tier
+                if quick and pad % 3 and not (1020 <= pad + len(tok) + len(tail) <= 1024):
                     continue
                 T.append(("%s_%d" % (nm, pad), "x" * 3 + " " * (pad - 3) + tok + tail + "\n y = 2;\n"))
         nsoup = 1200 if quick else 8000
@@ -214,7 +216,7 @@ class C13(Check):
         """reader specs for one text."""
         quick = self.tier == "quick"
         n = len(text)
-        R = ["-", "sr", "lines:1023"]
+        R = ["-", "sr", "rf", "lines:1023"]
         if n <= 1:
             return R
         short = n <= 80
@@ -268,7 +270,9 @@ class C13(Check):
                     seen.add((h, r))
                     n += 1
                     line = "tok %s %s" % (h, r)
-                    cases.append(Case("c%d" % n, line, line, {"text": name + "/" + vn, "reader": r, "len": len(t)}))
+                    # `rf` = apps/read_file.cpp on a FILE*: same discipline as StringReader, hence the same model reader
+                    mline = "tok %s sr" % h if r == "rf" else line
+                    cases.append(Case("c%d" % n, mline, line, {"text": name + "/" + vn, "reader": r, "len": len(t)}))
         self.stats["cases"] = n
         self.stats["texts"] = len({c.meta["text"] for c in cases})
         return cases
